@@ -977,7 +977,18 @@ def moveaxis(a: AArr, src, dst):
     return transpose(a, order)
 
 
-def expand_dims(a: AArr, axis):
+def expand_dims(a, axis):
+    if isinstance(a, IdxArr):
+        # a 1-d position array given extra length-one axes: an open-mesh index array, as np.ix_ makes them
+        req = list(axis) if isinstance(axis, (tuple, list)) else [axis]
+        n_out = 1 + len(req)
+        axs = sorted({int(x) % n_out for x in req})
+        if len(axs) != len(req):
+            raise NumpyRaise("ValueError", "repeated axis")
+        long_axis = next(i for i in range(n_out) if i not in axs)
+        return Mesh(long_axis, n_out, a.positions)
+    if isinstance(a, Mesh):
+        raise ModelAbort("np.expand_dims of an open-mesh index array")
     a.check_fresh()
     axes = list(a.axes)
     req = list(axis) if isinstance(axis, (tuple, list)) else [axis]
